@@ -141,6 +141,20 @@ var c07Templates = [][]*gripql.GraphStatement{
 	{gen.V(), gen.Out(), gen.Aggregate(&gripql.Aggregate{Name: "h", Aggregation: &gripql.Aggregate_Histogram{Histogram: &gripql.HistogramAggregation{Field: "n", Interval: 2}}})},
 	{gen.V(), gen.Out(), gen.Render(map[string]interface{}{"id": "_gid"})},
 	{gen.E(), gen.Out(), gen.OutE()},
+	// two steps with temporary storage in one traversal
+	{gen.V(), gen.Distinct(), gen.Out(), gen.Distinct()},
+	{gen.V(), gen.Out(), gen.Distinct("s"), gen.Distinct()},
+	// deep pipelines: more concurrently live lookup steps than any small pool of
+	// per-step resources (18, 24 and 40 hops)
+	c07Deep(18), c07Deep(24), c07Deep(40),
+}
+
+func c07Deep(hops int) []*gripql.GraphStatement {
+	p := []*gripql.GraphStatement{gen.V()}
+	for i := 0; i < hops; i++ {
+		p = append(p, gen.Out())
+	}
+	return p
 }
 
 func genC07(r *Rng, tier string) *c07W {
